@@ -60,6 +60,8 @@ TEMPLATES = {
     'req_inline_off': (["print('r{k}' + (mark({k}) or ''))  # xdoctest: -REQUIRES(module:%s)" % MISSING], ["r{k}"], ('out', "r{k}\n", 'lift_requires')),
     # two conditions, the first met, the second not
     'req_on2':      (["# xdoctest: +REQUIRES(module:os, module:%s)" % MISSING], None, ('dir', 'REQUIRES', True)),
+    # a directive that cannot be applied: the doctest fails at that part, the statement does not run
+    'bad_directive': (["w{k} = mark({k})  # xdoctest: +REQUIRES(bogus-condition-{k})"], None, ('bad_directive',)),
     # a helper defined by one part (longer than the part that calls it) and called by a later one
     'helper_def':   (["def helper(_m=mark({k})):", "    a = 1", "    b = 2", "    c = 3", "    raise ValueError('boomH')"], None, ('defhelper',)),
     'helper_call':  (["(mark({k}), helper())[1]"], None, ('callhelper',)),
@@ -137,6 +139,8 @@ def oracle(parts, table):
                 inline_skip = True
             elif 'lift_requires' in beh:
                 lift = True
+            elif beh[0] == 'bad_directive':
+                return verdict(True, px, None)
             elif 'ignore_want' in beh:
                 ignore_want = True
         code_ks = [k for k in ks if table[k][1][0] != 'dir']
